@@ -454,7 +454,7 @@ PROPS["C18"] = dict(
           "switches to keys of its own that carry a 4-byte MKI; RTP packets of limit-12..limit+6 and RTCP packets around the SRTCP limit are "
           "written and no interleaved frame larger than the maximum may reach the server. Distinct by case hash."),
     assumptions=[
-        "multicast writers are not exercised (no multicast route in the sandbox); the MKI variant of SRTP (client-managed keys) is not reachable with the library's own server",
+        "the multicast sub-check needs an interface that is up, multicast-capable and not the loopback (skipped and counted where there is none); a key identifier reaches the library's own server only from the scripted publisher of the mki sub-check",
         "the converse (every write within the limit is accepted) is not part of C18; C01 covers delivery of maximum-size packets",
     ],
     jobs=lambda tier: [
